@@ -212,6 +212,30 @@ CHECKS["C18"] = dict(
     note="Trusted: ref/tensor_model.py dense model; np.random reseeded per case; index expressions where numpy semantics differ from "
          "per-axis indexing are not generated; ALS from random starts only held to what is documented.")
 
+CHECKS["C09"] = dict(
+    category="model_checking", design_ref="DESIGN.md §3 C09",
+    technique="bounded-exhaustive enumeration of knot-vector shapes x derivative orders x pairs of spaces x quadrature grids x weight "
+              "monomials against exact rational integrals; Kronecker/generic/predefined/string routes compared for all small "
+              "tensor-product spaces; closed-form identities; fast assembler over a tolerance alphabet in pristine-rand() children",
+    text="1D mixed-derivative forms and two-space (asym) forms equal exact piecewise-polynomial integrals (Fractions) for every knot "
+         "vector of the alphabet; mass/stiffness via Kronecker, identity-geometry, predefined and string routes agree with Kronecker "
+         "products of exact 1D matrices in 1-3D; symmetry, sum(M)=measure, K1=0, kernel=constants, SPD/SPSD; load vectors/inner "
+         "products/integrals of polynomial data exact under polynomial-Jacobian maps; mass_fast/stiffness_fast within 10*tol for tol in "
+         "{1e-4..1e-10}; determinant/inverse helpers on integer grids.",
+    note="Trusted: ref/galerkin.py exact rational integration; the fast assembler uses C rand(): every case runs from srand(1) in a "
+         "fresh child (deterministic); known findings: ACA stop heuristics (skipstop/tolstop) on 16 listed cases.")
+CHECKS["C20"] = dict(
+    category="fault_enumeration", design_ref="DESIGN.md §2.4, §3 C20",
+    technique="fault enumeration over the recorded write history of a real build (every prefix x truncation class, single damages, a "
+              "second fault after recovery, SIGKILL at inotify event indices) with recovery in fresh processes; stateless exploration "
+              "of all stage-boundary interleavings of two real compiling processes with <=1 preemption (thorough: all 252) under a "
+              "baton scheduler, with a content-hash watch on published modules",
+    text="Every crash/damage state of the on-disk module cache is handed to a fresh process that must obtain a correct assembler "
+         "without dying from a signal; two processes compiling the same or distinct forms are sequenced through every interleaving of "
+         "their stages and must both obtain correct assemblers while a published module is never replaced by different bytes.",
+    note="Process death (not power loss): only prefixes of the write history are reachable; free-running races of 2..16 processes are "
+         "supplementary evidence (reported, not deciding); no TLA+ model was built (the direct enumeration decides the property).")
+
 NOT_YET = {}
 
 
